@@ -120,7 +120,17 @@ Definition wstep (max : nat) (s : wstate) (e : event) : wstate :=
   | ERemove, AtRemove tf cf n ver =>
     set_queue s (skipn n (queue s)) (AtPrepare tf cf (firstn n (queue s)) ver)
   | EPrepare ok ex, AtPrepare tf cf batch ver =>
-    if ok then set_pc s (AtAnchor tf cf batch ver (split_batch (fun i => memZ i ex) [] batch))
+    if ok then
+      let sp := split_batch (fun i => memZ i ex) [] batch in
+      match included sp with
+      | [] =>
+        (* every operation of the batch has expired: the handler prepares nothing (no files, no anchor string), the
+           writer writes no anchor and commits the batch (F16) *)
+        {| queue := queue s; wpc := AtReAdd tf cf batch ver []; anchored := anchored s;
+           discarded := discarded s ++ expired_ops sp; accepted := accepted s;
+           boundary_seen := boundary_seen s; stuck := stuck s |}
+      | _ :: _ => set_pc s (AtAnchor tf cf batch ver sp)
+      end
     else set_pc s (AtNack tf cf batch)
   | EAnchor ok, AtAnchor tf cf batch ver sp =>
     if ok then
